@@ -16,7 +16,7 @@ def run(ctx, replay=None):
         res = ctx.tlc("MC_framing", cfg, workers=1, timeout=1500)
         if res.rc != 0 or "NCASES" not in res.out:
             raise vlib.Inconclusive("Framing enumeration failed: %s" % (res.error or res.out[-800:]))
-        cases = pipeline.parse_cases(res.out)
+        cases = pipeline.parse_cases(res)
         ctx.cov["states"] = max(ctx.cov["states"], len(cases))       # enumeration of a constant-level specification
         ctx.cov["transitions"] = max(ctx.cov["transitions"], len(cases))
         behs = []
